@@ -172,8 +172,12 @@ def run(ctx):
     rng = random.Random(ctx.seed)
     enc = Enc(h)
     vals = catalogue(h)
+    # plus random scalars of every kind (payloads from the codec generators: all code points, boundary floats, zones)
+    import codec
+    thorough = ctx.tier == 'thorough' or ctx.escalate
+    vals = vals + [codec.gen_scalar(rng, False) for _ in range(160 if thorough else 30)]
     n = len(vals)
-    ctx.coverage['rule'] = ('all ordered pairs of a catalogue of %d values covering every kind x boundary payloads (equal text across str/Uri/Bin, '
+    ctx.coverage['rule'] = ('all ordered pairs of %d values: a catalogue covering every kind x boundary payloads and random scalars of every kind (30 quick / 160 thorough); (equal text across str/Uri/Bin, '
                             'int/float/bool payloads, NaN, +-0.0, units None/""/kg/m, Ref with/without/empty display, XStr hex/b64 of the same bytes, '
                             'dates/times/date-times in three zones with equal instants, nested lists/dicts), for ==, !=, _approx_check and hash; '
                             'all pairs of small grids differing in exactly one position; a pair is non-trivial when the operands are different objects' % n)
@@ -242,6 +246,9 @@ def run(ctx):
             corr = True
     for i, a in enumerate(vals):
         for j, b in enumerate(vals):
+            # (CPython >= 3.10 hashes a NaN by identity: two NaN objects are unequal and may hash differently)
+            if i != j and (nan_inside(a, h) or nan_inside(b, h)):
+                continue
             if hkeys[i] != 'unhashable' and hkeys[j] != 'unhashable' and hkeys[i] == hkeys[j] and hash(a) != hash(b) and not corr:
                 ctx.violation('correspondence-broken', 'hash keys of %r and %r are equal in the model, hashes differ' % (a, b),
                               {'component': 'hash_key'})
